@@ -56,6 +56,8 @@ impl Thread {
 /// See [`scope`] for details.
 pub struct Scope<'scope, 'env: 'scope> {
     num_running_threads: AtomicUsize,
+    /// Set once the main task is blocked in `scope`, waiting for the scoped threads to finish
+    main_task_waiting: AtomicBool,
     main_task: TaskId,
     scope: PhantomData<&'scope mut &'scope ()>,
     env: PhantomData<&'env mut &'env ()>,
@@ -96,7 +98,11 @@ impl<'scope> Scope<'scope, '_> {
 
                 finished.store(true, Ordering::Relaxed);
 
-                if self.num_running_threads.fetch_sub(1, Ordering::Relaxed) == 1 {
+                // Only wake the main task if it is waiting for us at the end of `scope`: inside the scope's
+                // closure it may be blocked in some other operation, which must not be woken spuriously.
+                if self.num_running_threads.fetch_sub(1, Ordering::Relaxed) == 1
+                    && self.main_task_waiting.load(Ordering::Relaxed)
+                {
                     ExecutionState::with(|s| s.get_mut(self.main_task).unblock());
                 }
 
@@ -127,6 +133,7 @@ where
 {
     let scope = Scope {
         num_running_threads: AtomicUsize::new(0),
+        main_task_waiting: AtomicBool::new(false),
         main_task: ExecutionState::with(|s| s.current().id()),
         env: PhantomData,
         scope: PhantomData,
@@ -136,6 +143,7 @@ where
 
     if scope.num_running_threads.load(Ordering::Relaxed) != 0 {
         tracing::info!("thread blocked, waiting for completion of scoped threads");
+        scope.main_task_waiting.store(true, Ordering::Relaxed);
         ExecutionState::with(|s| s.current_mut().block(false));
         thread::switch();
     }
